@@ -97,6 +97,8 @@ type Query struct {
 	Vars    []refenc.StatusVar `json:",omitempty"` // other status variables, in emission order; code 4 is placed by Charset
 	TS      uint32
 	ErrCode uint16 `json:",omitempty"`
+	// Thread and Exec are the post-header's thread id (0 stands for the usual 7) and execution time
+	Thread, Exec uint32 `json:",omitempty"`
 }
 
 // Item is one element of a transaction body.
@@ -228,7 +230,11 @@ func (h *History) queryBody(q *Query) []byte {
 	if !placed {
 		vars = append(vars, cs)
 	}
-	return refenc.QueryBody(7, 0, q.ErrCode, refenc.StatusVars(vars), q.DB, q.SQL)
+	th := q.Thread
+	if th == 0 {
+		th = 7
+	}
+	return refenc.QueryBody(th, q.Exec, q.ErrCode, refenc.StatusVars(vars), q.DB, q.SQL)
 }
 
 // RowImage encodes one image of a row.
